@@ -7,7 +7,38 @@ import sys
 HERE = os.path.dirname(os.path.dirname(os.path.abspath(__file__)))
 
 # id -> (engine, level category, technique, level text, level note, design ref)
+PM = ("Hypothesis-generated contract programs (IR rendered to a real module) x all truth assignments; oracle = "
+      "reference interpreter transcribed from the property statements; collect-then-minimise failure buckets")
+TRUST = ("Trusted: CPython, Hypothesis, the ~600-line reference interpreter vf/progmodel/ref.py (its own errors exit 2). "
+         "Conditions/captures/factories/bodies of generated programs only log and answer from the truth table. ")
+
 CHECKS = {
+    "C01": ("progmodel", "exploration", PM + "; projection: body entered iff DNF(truth), no capture/post on rejection",
+            "Generated callables of every kind (function, instance/static/class method, property accessors, __init__, "
+            "__new__, sync/async) with stacks of 0..4 own and inherited preconditions are called under ALL 2^n truth "
+            "assignments (n<=6 quick, <=9 thorough; sampled beyond); the body must run iff the reference DNF holds. "
+            "Search over programs, exhaustive over assignments per program; not a proof.",
+            TRUST + "Which falsy condition's error surfaces is left to C16.", "4/C01, 3.1"),
+    "C02": ("progmodel", "exploration", PM + "; projection: postcondition events with result/argument/OLD identities, "
+            "caller's object/exception identity",
+            "Generated callables with stacks of own/inherited postconditions and bodies returning falsy/mutable/fresh "
+            "objects or raising Exception/BaseException kinds, under all truth assignments; compares which "
+            "postconditions ran with which objects and what the caller received, by identity.",
+            TRUST + "StopIteration from async bodies excluded (PEP 479).", "4/C02, 3.1"),
+    "C03": ("progmodel", "exploration", "Hypothesis-generated class hierarchies x operation HISTORIES (stateful sequences "
+            "with per-operation truth sequences of the invariants); oracle = reference trace per operation",
+            "Classes of four shapes (plain, slots, dataclass, no __init__) under DBC/DBCMeta/plain roots with mixed "
+            "check_on invariants at several levels and every member kind; histories of 3..10 operations on 1..2 "
+            "instances, invariants falsy before or turning falsy during an operation; every operation's invariant "
+            "events and outcome must equal the reference. Search, not proof.",
+            TRUST + "Inherited C slots are 'may check' and not probed. Finding D19 (nested __new__) is open and excluded "
+                    "by construction.", "4/C03, 3.1"),
+    "C04": ("progmodel", "exploration", PM + " over inheritance DAGs (multiple roots, diamonds, gaps); verdict projection",
+            "DAGs of 2..6 classes with one member kind, per class {absent, redefined without/with preconditions}, "
+            "postconditions, snapshots, invariants, constructor contracts; the member is called on an instance of "
+            "every class under all truth assignments; verdict and class-creation errors against the DNF/CNF computed "
+            "from the declaration.", TRUST + "Diamond-duplicated snapshots are unspecified and skipped; __call__ avoided "
+            "(see DESIGN).", "4/C04, 3.1"),
     "C05": (
         "sigmodel", "exploration",
         "exhaustive enumeration of bounded signatures x call shapes + Hypothesis sampling; differential oracle "
@@ -19,6 +50,36 @@ CHECKS = {
         "Trusted: CPython's own argument binding (the bare function is called with the same objects). Variadic "
         "parameter names and reserved names are outside the generated domain.",
         "4/C05, 3.2"),
+    "C08": ("progmodel", "exploration", PM + "; projection: capture count/position, tokens seen through OLD; enumerated "
+            "definition-time matrix",
+            "Generated callables with 0..3 snapshots (own/inherited, named/unnamed) and mutating bodies under all truth "
+            "assignments, plus the complete definition-time matrix (duplicate names on a function / in a hierarchy / in "
+            "sibling bases, unnamed with 0 or 2 parameters, no postcondition below, OLD.<unknown>) x kind x sync/async.",
+            TRUST, "4/C08, 3.1"),
+    "C09": ("progmodel", "exploration", "complete enumeration of the error-form x role x kind x sync/async matrix (each "
+            "cell violated three times) + " + PM,
+            "All 7 error forms x {pre, post, invariant} x all callable kinds x sync/async are executed; type, identity, "
+            "args and message (against the twin without `error`) of the raised object and the factory's call "
+            "count/arguments are checked; invalid kinds must raise ValueError at decorator creation for all three "
+            "decorators; generated programs vary the names factories ask for.", TRUST, "4/C09, 3.1"),
+    "C13": ("progmodel", "exploration", "metamorphic: the same generated program rendered with def and async def must "
+            "give equal traces; " + PM + " for awaitable flavours",
+            "Programs of the C01-C04/C08/C09 families are rendered twice (def / async def) and compared event by "
+            "event for all truth assignments; on async callables every condition/capture is drawn from five "
+            "awaitable flavours (reference: awaited, result judged); on sync callables coroutine flavours must raise "
+            "ValueError before the body.", TRUST + "No real suspension here (C12).", "4/C13, 3.1"),
+    "C16": ("progmodel", "exploration", PM + "; the WHOLE event trace (order, at-most-once, first failure) is compared",
+            "Stacks, chains and DAGs with several simultaneously falsy contracts at different positions/levels, "
+            "invariants + pre + snapshot + post on one member, named and lambda conditions; the complete evaluation "
+            "log of every call must equal the reference log under all truth assignments.",
+            TRUST + "Re-evaluation of a violated lambda and error construction for a failed alternative group are "
+                    "optional events.", "4/C16, 3.1"),
+    "C18": ("progmodel", "exploration", PM + "; static comparison of introspected lists with the reference + manual "
+            "evaluation of the lists as tests/test_for_integrators.py does + patched registration hook",
+            "For generated functions and DAGs the ids in find_checker(...).__preconditions__/__postconditions__/"
+            "__postcondition_snapshots__ and cls.__invariants__ must equal the effective contracts (in order), the "
+            "verdict obtained by evaluating those lists by hand must equal the verdict of the real call for all truth "
+            "assignments, and every created class must reach the patched hook exactly once.", TRUST, "4/C18, 3.1"),
 }
 
 PENDING = {}
